@@ -345,18 +345,33 @@ var errorIface = types.Universe.Lookup("error").Type().Underlying().(*types.Inte
 // `sync.Mutex{_ noCopy?; mu isync.Mutex}` in newer Go). We only ever use the
 // first int32 cell found as the lock word.
 func lockWord(p *value) *value {
-	v := p
-	for {
-		switch s := (*v).(type) {
-		case structure:
-			if len(s) == 0 {
-				panic(engineAbort{psEngineError, "lockWord: empty struct"})
-			}
-			v = &s[0]
-			continue
-		}
-		return v
+	if w := firstWord(p); w != nil {
+		return w
 	}
+	panic(engineAbort{psEngineError, "lockWord: no integer word in sync object"})
+}
+
+// firstWord finds the first integer cell inside a (nested) struct, skipping empty structs.
+func firstWord(p *value) *value {
+	switch s := (*p).(type) {
+	case structure:
+		for i := range s {
+			if w := firstWord(&s[i]); w != nil {
+				return w
+			}
+		}
+		return nil
+	case array:
+		for i := range s {
+			if w := firstWord(&s[i]); w != nil {
+				return w
+			}
+		}
+		return nil
+	case int32, uint32, int64, uint64, int:
+		return p
+	}
+	return nil
 }
 
 func wordInt(p *value) int64 {
@@ -754,7 +769,7 @@ func (i *interpreter) cMalloc(n int64, symbolicFill bool) unsafePtr {
 	for k := range mem {
 		// C memory is not zeroed: contents are arbitrary. Bytes become fresh
 		// symbolic values lazily would be costlier; we materialise them.
-		if symbolicFill && i.ctx != nil && sz <= 4096 {
+		if symbolicFill && i.ctx != nil && sz <= 64 {
 			mem[k] = symScalarCtx(i.ctx, "cmem", types.Uint8)
 		} else {
 			mem[k] = uint8(0xA5)
@@ -774,6 +789,9 @@ func symScalarCtx(c *pathCtx, name string, k types.BasicKind) value {
 func (i *interpreter) cFree(p unsafePtr) {
 	if p.isNil() {
 		return
+	}
+	if p.cobj == nil {
+		p.cobj = i.cobjOf(p.mem)
 	}
 	if p.cobj == nil {
 		panic(memError("free of memory not obtained from malloc"))
